@@ -13,7 +13,7 @@ from ..worldprop import base_outcome, completion
 
 np = sut.np
 ID = "C13"
-RUNS = {"quick": 30000, "thorough": 700000}
+RUNS = {"quick": 60000, "thorough": 700000}
 BUDGET = {"quick": 45, "thorough": 780}
 CHUNK = 800
 DET_EVERY = 400
